@@ -297,8 +297,8 @@ func (fv *FV) withCond(e *Env, c Term) *Env {
 
 // assume records a fact that holds on the current path.
 func (fv *FV) assume(e *Env, t Term) {
-	if e.dead {
-		return
+	if e.dead || fv.spec != nil {
+		return // contract expressions are pure: evaluating them never adds facts
 	}
 	fv.s.assume(implies(e.pc, t))
 }
